@@ -125,6 +125,8 @@ func GenCase(prop string, seed, run int64) string {
 	switch prop {
 	case "C08":
 		v = genC08(gen.New(seed, "C08", run))
+	case "C03":
+		v = genC03(gen.New(seed, "C03", run))
 	case "C19":
 		v = genC19(gen.New(seed, "C19", run), 8)
 	case "C02":
